@@ -103,7 +103,8 @@ static void vegas_highdim(std::size_t d, std::size_t bins)
 
 // ---- multi channel: channels are piecewise linear maps given by two-bin grids [0, k/4, 1]
 template <typename T>
-static T mc_lattice(std::vector<int> const& ks, std::vector<T> const& weights, T minw, int f, T jac, std::size_t Mu, std::size_t Ms, std::vector<T>* used = nullptr)
+static T mc_lattice(std::vector<int> const& ks, std::vector<T> const& weights, T minw, int f, T jac, std::size_t Mu, std::size_t Ms, std::vector<T>* used = nullptr,
+    T beta = T(0.25))
 {
     std::size_t n = ks.size();
     auto bin_of = [](int k, T y) { return y < T(k) / T(4) ? 0 : 1; };
@@ -124,7 +125,7 @@ static T mc_lattice(std::vector<int> const& ks, std::vector<T> const& weights, T
         T y = p.coordinates()[0];
         return f == f_one ? T(1) : (f == f_x0 ? y : (y < T(0.25) ? T(1) : T()));
     };
-    auto chk = hep::make_multi_channel_chkpt<T, script_engine>(weights, minw, T(0.25), lattice(std::vector<std::size_t>{Mu, Ms}, true));
+    auto chk = hep::make_multi_channel_chkpt<T, script_engine>(weights, minw, beta, lattice(std::vector<std::size_t>{Mu, Ms}, true));
     using C = decltype(chk);
     chk.channels(n);
     if (used) *used = chk.channel_weights();
@@ -149,8 +150,11 @@ static void mc_cases(rng& g, bool thorough)
                         int ff = f == 2 ? f_ind : f;
                         T jac = T(jacs[g.below(3)]);
                         std::size_t Ms = 24; // the same size as the lattice of the point: the order of the two numbers of a call is not prescribed
-                        T v = mc_lattice<T>(std::vector<int>{k1, k2}, std::vector<T>{T(w1), T(w2)}, T(), ff, jac, 24, Ms);
-                        ev("McLat").s("T", type_name<T>::get()).a("ks", std::vector<int>{k1, k2}).a("w", std::vector<int>{w1, w2}).i("f", ff).i("Mu", 24)
+                        // the exponent of the adaptation does not enter the normalisation of the weights a run starts with
+                        static double const betas[4] = {0.25, 0.0, 1.0, 0.5};
+                        int bi = (int) g.below(4);
+                        T v = mc_lattice<T>(std::vector<int>{k1, k2}, std::vector<T>{T(w1), T(w2)}, T(), ff, jac, 24, Ms, nullptr, T(betas[bi]));
+                        ev("McLat").i("beta100", (long long) (betas[bi] * 100)).s("T", type_name<T>::get()).a("ks", std::vector<int>{k1, k2}).a("w", std::vector<int>{w1, w2}).i("f", ff).i("Mu", 24)
                             .i("Ms", (long long) Ms).i("exactWeights", 1).i("recompute", g.below(12) == 0 ? 1 : 0).i("value", std::isfinite(v) ? mono_scaled(v, 20) : -999999999).emit();
                     }
                 }
@@ -204,6 +208,101 @@ static void adaptive(rng& g, int run)
     }
 }
 
+// ---- adaptive multi channel runs: after 1..3 adaptive iterations driven by pseudo-random numbers the run is resumed for one lattice
+// iteration with whatever weights the adaptation (exponent beta, minimum weight, channels without any contribution) has produced.
+// Channels: two-bin grids [0, k/4, 1] (k = 1..3) and, for k = 0, the map onto [0, 1/2) with density 2 there and 0 elsewhere.
+// During the adaptive iterations the integrand lives on [1/2, 1): the k = 0 channel is enabled but never contributes.
+template <typename T>
+static void adaptive_mc(rng& g, int run)
+{
+    std::size_t n = 3 + g.below(2);
+    std::vector<int> ks(n);
+    for (auto& k : ks) k = 1 + (int) g.below(3);
+    std::size_t half = g.below(n);
+    ks[half] = 0;
+    static double const betas[4] = {0.0, 0.25, 0.5, 1.0};
+    static double const minws[3] = {0.0, 0.05, 0.1};
+    T beta = T(betas[g.below(4)]);
+    T minw = T(minws[g.below(3)]);
+    std::vector<T> w(n);
+    for (auto& x : w) x = T(g.below(4));
+    w[half] = T(1 + g.below(3));
+    w[(half + 1) % n] = T(1 + g.below(3)); // a channel with full support is enabled
+    std::size_t pre = 1 + g.below(3), Npre = 200 + g.below(300);
+    std::size_t const M = 2064; // lattice per number (the two numbers of a call in either order)
+    auto p_of = [&](std::size_t j, long double y) -> long double {
+        if (ks[j] == 0) return y < 0.5L ? 2.0L : 0.0L;
+        long double e = ks[j] / 4.0L;
+        return y < e ? 1.0L / (2.0L * e) : 1.0L / (2.0L * (1.0L - e));
+    };
+    auto map = [&](std::size_t ch, std::vector<T> const& r, std::vector<T>& co, std::vector<std::size_t> const&, std::vector<T>& de, hep::multi_channel_map) {
+        int k = ks[ch];
+        T u = r[0];
+        if (k == 0) co[0] = u / T(2);
+        else
+        {
+            T pos = u * T(2);
+            int b = pos < T(1) ? 0 : 1;
+            T frac = pos - T(b);
+            T left = b == 0 ? T() : T(k) / T(4);
+            co[0] = left + frac * (b == 0 ? T(k) / T(4) : T(1) - T(k) / T(4));
+        }
+        for (std::size_t j = 0; j != n; ++j) de[j] = T(p_of(j, co[0]));
+        return T(1);
+    };
+    for (int f = 0; f != 2; ++f)
+    {
+        // script: pseudo-random numbers for the adaptive iterations, then the lattice
+        std::vector<std::uint64_t> sc;
+        rng h(g.next());
+        for (std::size_t i = 0; i != pre * Npre * 2; ++i) sc.push_back(h.next());
+        std::size_t const pre_calls = pre * Npre;
+        for (std::size_t k = 0; k != M * M; ++k)
+        {
+            std::size_t a = k % M, b = k / M;
+            sc.push_back((std::uint64_t) std::floor(std::ldexp((2.0L * a + 1.0L) / (2.0L * M), 64)));
+            sc.push_back((std::uint64_t) std::floor(std::ldexp((2.0L * b + 1.0L) / (2.0L * M), 64)));
+        }
+        std::size_t calls_seen = 0;
+        auto fn = [&](hep::multi_channel_point<T> const& p) {
+            T y = p.coordinates()[0];
+            if (calls_seen++ < pre_calls) return y >= T(0.5) ? T(1) + y : T();
+            return f == 0 ? T(1) : y;
+        };
+        auto chk = hep::make_multi_channel_chkpt<T, script_engine>(w, minw, beta, script_engine(script_registry::add(sc)));
+        using C = decltype(chk);
+        chk.channels(n);
+        auto integrand = hep::make_multi_channel_integrand<T>(fn, 1, map, 1, n);
+        chk = hep::multi_channel(integrand, std::vector<std::size_t>(pre, Npre), chk, hep::callback<C>(hep::callback_mode::silent));
+        std::vector<T> used = chk.channel_weights(); // what the lattice iteration will be sampled with
+        chk = hep::multi_channel(integrand, std::vector<std::size_t>{M * M}, chk, hep::callback<C>(hep::callback_mode::silent));
+        T v = chk.results().back().value();
+        // the selector lattice hits channel i with a frequency that differs from alpha_i (normalised) by less than 1 / M; channel i contributes
+        // I_i = int f p_i / g <= sup (p_i / g) int f, so the lattice value is within sum_i sup(p_i / g) / M of the integral (plus rounding)
+        long double wsum = 0.0L, bound = 0.0L;
+        for (T x : used) wsum += x;
+        bool usable = std::isfinite((double) wsum) && wsum > 0.0L;
+        for (std::size_t i = 0; usable && i != n; ++i)
+        {
+            if (used[i] == T()) continue;
+            long double sup = 0.0L;
+            for (int q = 0; q != 4; ++q)
+            {
+                long double y = (2 * q + 1) / 8.0L, gy = 0.0L;
+                for (std::size_t j = 0; j != n; ++j) gy += (long double) used[j] / wsum * p_of(j, y);
+                if (p_of(i, y) > 0.0L) sup = std::fmax(sup, p_of(i, y) / gy);
+            }
+            bound += sup / M;
+        }
+        long long tol = usable ? (long long) std::ceil(bound * 1048576.0L) + 16 : -1;
+        std::vector<long long> wq;
+        for (T x : used) wq.push_back(mono_scaled(x, 20));
+        ev("McAdapt").s("T", type_name<T>::get()).i("run", run).i("pre", (long long) pre).a("ks", ks).i("beta100", (long long) ((double) beta * 100))
+            .i("minw1000", (long long) ((double) minw * 1000)).i("f", f == 0 ? f_one : f_x0).a("used", wq).i("M", (long long) M).i("tol", tol)
+            .i("value", std::isfinite(v) ? mono_scaled(v, 20) : -999999999).emit();
+    }
+}
+
 int main(int argc, char** argv)
 {
     if (argc < 4) return 2;
@@ -242,6 +341,7 @@ int main(int argc, char** argv)
     mc_cases<float>(g, thorough);
     if (thorough) mc_cases<long double>(g, true);
     for (int r = 0; r != (thorough ? 30 : 6); ++r) { if (r % 3 == 0) adaptive<float>(g, r); else if (r % 3 == 1) adaptive<double>(g, r); else adaptive<long double>(g, r); }
+    for (int r = 0; r != (thorough ? 30 : 6); ++r) { if (r % 3 == 0) adaptive_mc<double>(g, r); else if (r % 3 == 1) adaptive_mc<float>(g, r); else adaptive_mc<long double>(g, r); }
     out().close();
     return 0;
 }
